@@ -17,8 +17,10 @@ import time
 import traceback
 
 VERIF_DIR = os.path.dirname(os.path.dirname(os.path.abspath(__file__)))
-EVIDENCE_DIR = os.path.join(VERIF_DIR, "evidence")
-REPLAY_DIR = os.path.join(VERIF_DIR, "replays")
+EVIDENCE_DIR = os.environ.get("VERIF_EVIDENCE_DIR",
+                              os.path.join(VERIF_DIR, "evidence"))
+REPLAY_DIR = os.environ.get("VERIF_REPLAY_DIR",
+                            os.path.join(VERIF_DIR, "replays"))
 KNOWN_FINDINGS = os.path.join(VERIF_DIR, "known_findings.json")
 PYTHON = "/venv/bin/python"
 
